@@ -693,10 +693,15 @@ class SqantiSession(Session):
     kind = "sqanti"
 
 
+TOP_LEVEL = ("paramsTmp", "refFa", "refFai", "refFaiData", "refFaiTmp")
+
+
 def tag(p, j):
     if p == ["params"]:
         return p
-    return p + ["@%d" % (0 if p == ["paramsTmp"] else j)]      # (the model files `.params.tmp` under the first experiment)
+    # the model files `.params.tmp` under the first experiment; the files of the reference stage (the unpacked copy of a
+    # plain-gzip reference, the index inside the folder) belong to the invocation: the driver lists them under experiment 0
+    return p + ["@%d" % (0 if p[0] in TOP_LEVEL else j)]
 
 
 def untag(p):
@@ -709,8 +714,11 @@ class MultiSession(Session):
     """two experiments in one invocation (--bam_list), both alignment files with unaligned reads.  Every experiment is a
     run of the model in its own folder (`.params` is shared and written once); the model configuration of the second
     one says `carried`: the process-wide alignment counter is not zero when it starts.  Paths are tagged with the
-    experiment's index."""
+    experiment's index.  `gz_ref`: the invocation's reference is plain-gzip compressed - unpacked and indexed **once**, in the
+    top-level folder, before the first experiment (DatasetProcessor.__init__; model: `runRef`); `fai`: the reference lies in
+    the output folder without an index (`<out>/ref/genome.fa`), the index is built once.  Both experiments read these files."""
     kind = "multi"
+    FASTA = "ref/genome.fa"
 
     def __init__(self, base, idx, cfg, data=None):
         self.prefixes = list(R.MULTI_PREFIXES)
@@ -726,6 +734,29 @@ class MultiSession(Session):
         # resumed) invocation from the experiments' final count tables: not part of the model, compared as final outputs
         for nm in ("gene_counts", "gene_tpm", "transcript_counts", "transcript_tpm"):
             self.table["combined_%s.tsv" % nm] = ["combined", nm]
+        if self.cfg.get("gz_ref") or self.cfg.get("fai"):
+            self.table = PathTable(self.table)
+            fasta = R.GZ_REF_NAME if self.cfg.get("gz_ref") else self.FASTA
+            if self.cfg.get("gz_ref"):
+                self.table[fasta] = tag(["refFa"], 0)
+            self.table.add_index(fasta)
+            self.table[fasta + ".fai"] = tag(["refFai"], 0)
+            self.table.patterns = [(rx, tag(mp, 0)) for rx, mp in self.table.patterns]
+
+    def prepare(self, wd):
+        if self.cfg.get("gz_ref"):
+            os.makedirs(os.path.join(wd, "ref"), exist_ok=True)
+            shutil.copy(self.data["paths"]["ref_gz"], os.path.join(wd, "ref", R.GZ_REF_NAME + ".gz"))
+        elif self.cfg.get("fai"):
+            os.makedirs(os.path.join(wd, "out", "ref"), exist_ok=True)
+            shutil.copy(self.data["paths"]["ref"], os.path.join(wd, "out", self.FASTA))
+
+    def args(self, wd, threads=1):
+        if self.cfg.get("gz_ref"):
+            return R.cli_args(self.cfg, self.data, threads=threads, ref=os.path.join(wd, "ref", R.GZ_REF_NAME + ".gz"))
+        if self.cfg.get("fai"):
+            return R.cli_args(self.cfg, self.data, threads=threads, ref=os.path.join(wd, "out", self.FASTA))
+        return None
 
     def split(self, muts):
         """tagged mutations [(n, op, path)] -> per experiment [(n, op, path)]; `.params` goes to experiment 0"""
@@ -749,6 +780,14 @@ class MultiSession(Session):
         pts = {(k, ctx.rng.choice("ab")) for k in ks}
         if lock2 is not None:
             pts |= {(lock2, "a"), (lock2, "b")}
+        # the reference stage of the invocation: around the unpacking (before the open, right after it, inside the copy,
+        # before the next mutation), both phases of the index's temporary file and of its rename, the mutation after it
+        kr = next((n for n, o, p in self.muts if untag(p)[1] == ["refFa"] and o == "create"), None)
+        if kr is not None:
+            pts |= {(kr, "b"), (kr, "a"), (kr, "w"), (kr + 1, "b")}
+        ki = [n for n, o, p in self.muts if untag(p)[1][0] in ("refFai", "refFaiTmp")]
+        if ki:
+            pts |= {(k, ph) for k in ki for ph in "ba"} | {(max(ki) + 1, "b")}
         return sorted(pts)
 
 
@@ -869,10 +908,21 @@ def sessions(ctx):
                                                                   "keep_tmp": False, "unmapped": False, "seed": 0,
                                                                   "sqanti": True, "prefix": "Q7x"}))
             ctx.count("config:sqanti_output,toy")
-            mcfg = {"n": ctx.rng.choice([1, 2]), "genedb": True, "rg": ctx.rng.choice(["none", "inline"]),
-                    "keep_tmp": ctx.rng.random() < 0.3, "unmapped": True, "seed": ctx.rng.randrange(10 ** 6), "multi": True}
-            st["sessions"].append(MultiSession(st["base"], 201, mcfg))
-            ctx.count("config:two_experiments,n=%d,rg=%s,keep_tmp=%s" % (mcfg["n"], mcfg["rg"], mcfg["keep_tmp"]))
+            # the invocation's reference: read directly / plain-gzip (unpacked + indexed once, top-level folder) / inside
+            # the output folder without an index (quick: one of the three by the seed; thorough: all three)
+            refs = [ctx.rng.choice(["plain", "gz_ref", "fai"])] if ctx.tier == "quick" else ["plain", "gz_ref", "fai"]
+            if os.environ.get("VERIF_C07_MULTI_REF"):       # development aid: the reference(s) of the two-experiment sessions
+                refs = os.environ["VERIF_C07_MULTI_REF"].split(",")
+            for mi, ref in enumerate(refs):
+                mcfg = {"n": ctx.rng.choice([1, 2]), "genedb": True, "rg": ctx.rng.choice(["none", "inline"]),
+                        "keep_tmp": ctx.rng.random() < 0.3, "unmapped": True, "seed": ctx.rng.randrange(10 ** 6), "multi": True}
+                if ref != "plain":
+                    mcfg[ref] = True
+                # the resume command line of the invocation: `--resume` alone or `--resume --high_memory`
+                mcfg["resume_high_memory"] = ctx.rng.random() < 0.5
+                st["sessions"].append(MultiSession(st["base"], 201 + mi, mcfg))
+                ctx.count("config:two_experiments,n=%d,rg=%s,keep_tmp=%s,reference=%s,resume_high_memory=%s" % (
+                    mcfg["n"], mcfg["rg"], mcfg["keep_tmp"], ref, mcfg["resume_high_memory"]))
     return st["sessions"]
 
 
@@ -1144,7 +1194,8 @@ def multi_check(ctx, sess, tagname):
     if isinstance(out, dict) and "driver_error" in out:
         ctx.disagree("multi_clean_trace", inp0, out, None)
         return
-    m_muts, m_commits = model_muts(tagged(out["evs"]))
+    m_evs = tagged(out["evs"])
+    m_muts, m_commits = model_muts(m_evs)
     real_seq = [[o, p] for _, o, p in sess_muts]
     model_seq = [[o, p] for _, o, p in m_muts]
     ctx.traces_validated += 1
@@ -1174,7 +1225,7 @@ def multi_check(ctx, sess, tagname):
         if r["verdict"] == "NOCRASH" or j < 1 or j > len(m_muts):
             ctx.count("point_not_reached")
             continue
-        idx = model_index(m_muts, j, ph)
+        idx = model_index(m_muts, j, ph, m_evs)
         pr = []
         cm = sess.split(body(canon_trace(r["trace"], sess.table)[0], "killed run", pr))
         rm_all = body(canon_trace(r.get("resume_trace", []), sess.table)[0], "resumed run", pr)
@@ -1184,7 +1235,7 @@ def multi_check(ctx, sess, tagname):
             ordc = sess.cleanup_order(cm[x])
             ordk.append(ordc + [p for p in ords[x] if p not in ordc] if ordc else ords[x])
         lines.append(vlib.req("C07.multiVerdict", variant=VARIANT_FIXED, cfgs=cfgs, ords=ordk,
-                              ords2=[sess.cleanup_order(rm[x]) for x in range(nexp)], k=idx))
+                              ords2=[sess.cleanup_order(rm[x]) for x in range(nexp)], k=idx, **sess.resume_opts()))
         keep.append(((k, ph), r, rm_all, idx, pr))
     mouts = ctx.driver.run(lines)
     for mo, ((k, ph), r, rm_all, idx, pr) in zip(mouts, keep):
